@@ -70,6 +70,17 @@ func UnitsFor[K any](k *kinds.Kind[K], cfg *Config, seed uint64) []Unit {
 			res.Inc("units_big_history")
 		}})
 	}
+	if k.Fan2 != nil {
+		for i := 0; i < (cfg.Sweeps+1)/2; i++ {
+			name := fmt.Sprintf("%s/fan2/%d", k.Name, i)
+			us = append(us, Unit{name, func(res *ev.Result) {
+				r := unitRng(seed, name)
+				s := NewSession(k, cfg, res, name)
+				s.RunFan2(r)
+				res.Inc("units_two_level_fan")
+			}})
+		}
+	}
 	if k.Fan != nil {
 		for i := 0; i < cfg.FanHistories; i++ {
 			name := fmt.Sprintf("%s/fanhist/%d", k.Name, i)
